@@ -457,6 +457,8 @@ impl DatabaseHandle {
     }
 
     pub(crate) async fn clear_written_events(&mut self, app: &mut dyn OutstationApplication) {
+        #[cfg(dnp3_verif)]
+        crate::util::verif_trace::log("db clear_written".to_string());
         app.begin_confirm();
         let state = self.inner.lock().unwrap().inner.clear_written_events(app);
         app.end_confirm(state).get().await;
@@ -464,6 +466,18 @@ impl DatabaseHandle {
 
     pub(crate) fn get_events_info(&self) -> EventsInfo {
         let guard = self.inner.lock().unwrap();
+        #[cfg(dnp3_verif)]
+        {
+            let c = guard.inner.unwritten_classes();
+            crate::util::verif_trace::log("db evinfo".to_string());
+            crate::util::verif_trace::log(format!(
+                "> evinfo {} {} {} {}",
+                c.class1 as u8,
+                c.class2 as u8,
+                c.class3 as u8,
+                guard.inner.is_overflown() as u8
+            ));
+        }
 
         EventsInfo {
             unwritten_classes: guard.inner.unwritten_classes(),
@@ -482,10 +496,34 @@ impl DatabaseHandle {
                 Some(x) => iin2 |= guard.inner.select_by_header(x),
             }
         }
+        #[cfg(dnp3_verif)]
+        {
+            crate::util::verif_trace::log("db select".to_string());
+            crate::util::verif_trace::log(format!("> iin2 {}", iin2.value));
+        }
         iin2
     }
 
+    #[cfg_attr(dnp3_verif, allow(unreachable_code))]
     pub(crate) fn write_response_headers(&mut self, cursor: &mut WriteCursor) -> ResponseInfo {
+        #[cfg(dnp3_verif)]
+        {
+            let start = cursor.position();
+            let info = self
+                .inner
+                .lock()
+                .unwrap()
+                .inner
+                .write_response_headers(cursor);
+            crate::util::verif_trace::log("db write".to_string());
+            crate::util::verif_trace::log(format!(
+                "> write {} {} {}",
+                info.complete as u8,
+                info.has_events as u8,
+                crate::util::verif_trace::hex(cursor.get(start..cursor.position()).unwrap_or(&[]))
+            ));
+            return info;
+        }
         self.inner
             .lock()
             .unwrap()
@@ -493,12 +531,34 @@ impl DatabaseHandle {
             .write_response_headers(cursor)
     }
 
+    #[cfg_attr(dnp3_verif, allow(unreachable_code))]
     pub(crate) fn write_unsolicited(
         &mut self,
         classes: EventClasses,
         cursor: &mut WriteCursor,
     ) -> usize {
         let mut guard = self.inner.lock().unwrap();
+        #[cfg(dnp3_verif)]
+        {
+            crate::util::verif_trace::log(format!(
+                "db write_unsol {}{}{}",
+                classes.class1 as u8, classes.class2 as u8, classes.class3 as u8
+            ));
+            let start = cursor.position();
+            guard.inner.reset();
+            let count = guard.inner.select_event_classes(classes);
+            let written = if count == 0 {
+                0
+            } else {
+                guard.inner.write_events_only(cursor)
+            };
+            crate::util::verif_trace::log(format!(
+                "> unsol {} {}",
+                written,
+                crate::util::verif_trace::hex(cursor.get(start..cursor.position()).unwrap_or(&[]))
+            ));
+            return written;
+        }
         guard.inner.reset();
         let count = guard.inner.select_event_classes(classes);
         if count == 0 {
@@ -508,6 +568,8 @@ impl DatabaseHandle {
     }
 
     pub(crate) fn reset(&mut self) {
+        #[cfg(dnp3_verif)]
+        crate::util::verif_trace::log("db reset".to_string());
         self.inner.lock().unwrap().inner.reset()
     }
 }
